@@ -184,6 +184,9 @@ type JenID struct {
 	ParentPointer *JenID
 	Code          *jen.Statement
 	Variable      bool
+	// ImplicitPointer is set when Code is a pointer to the struct the id stands for:
+	// fields are selected through it as they are, the struct itself is Deref().
+	ImplicitPointer bool
 }
 
 func (j *JenID) Pointer(t *Type, namer func(string) string) ([]jen.Code, *JenID) {
